@@ -932,6 +932,21 @@ def oracle_c06(ctx, focus):
                 t = t + " " + b["dec"] + " " + rng.choice(bank)
             reqs.append("occ\t%s\t%s\t%s" % (lang, rng.choice(ALL_THR), esc(t)))
             meta.append((lang, t))
+        # numbers far beyond 2^53 with non-zero digits all the way down ("exact digits kept even when the value exceeds
+        # float precision"): a multiplier on every scale word of the language, then a dense lower part
+        import vocab as _vocab
+        words = [w for w in _vocab.source_literals(lang) if w and " " not in w]
+        scales = [w for w in words if re.search(r"illi|ilj|ilh|^bilh|^bili", w)]
+        dense = _spec_cases(ctx, "c06d" + lang, ["gen\tcard\t%s\t%d\t0" % (lang, x) for x in
+                                                   (123401, 123407, 999999999999, 100000123403, 7000001, 90071992547, 123456789012)])
+        mult = _spec_cases(ctx, "c06m" + lang, ["gen\tcard\t%s\t%d\t0" % (lang, x) for x in (9, 12, 90, 100, 900, 9007, 90000, 100000)])
+        for (g1, m_, e1) in mult:
+            for sc in scales:
+                for (g2, d_, e2) in dense:
+                    for joiner in (" ", ""):
+                        t = unesc(m_) + joiner + sc + " " + unesc(d_)
+                        reqs.append("occ\t%s\t%s\t%s" % (lang, THR0, esc(t)))
+                        meta.append((lang, t))
     outs = run_impl(ctx, "c06", reqs)
     for r, o, (lang, t) in zip(reqs, outs, meta):
         n += 1
@@ -1200,13 +1215,13 @@ def oracle_c10(ctx, focus):
             ctxs = []
             for det in ("un", "le", "du", "l'", "Le", "ce"):
                 for mid in ("", "bon", "très bon"):
-                    for tens in ("vingt", "trente", "soixante", "cent", "mille", "", "quatre-vingt"):
-                        for tail in ("mai", "restera ouvert", "", "ans", "cent"):
+                    for tens in ("vingt", "trente", "soixante", "cent", "mille", "", "quatre-vingt", "zéro", "premier", "deuxième", "zéro zéro"):
+                        for tail in ("mai", "restera ouvert", "", "ans", "cent", "zéro", "premiers", "premières pièces", "mille", "virgule cinq"):
                             head = det if det.endswith("'") and not mid and not tens else det + " "
                             if det.endswith("'"):
                                 head = det + ("ami " if (mid or tens) else "")
                             ctxs.append(" ".join(x for x in [(head + " ".join(y for y in [mid, tens] if y)).strip(), "neuf", tail] if x))
-            for _ in range(600 if ctx.tier != "thorough" else 12000):
+            for _ in range(2500 if ctx.tier != "thorough" else 40000):
                 a, b = rng.choice(ctxs), rng.choice(ctxs)
                 s = " " + rng.choice(STRONG[lang]) + ". "
                 th = rng.choice(thrs)
